@@ -14,9 +14,9 @@ Min2(a, b) == IF a <= b THEN a ELSE b
 RECURSIVE FirstTerm(_, _)
 FirstTerm(bs, i) == IF i > Len(bs) THEN 0 ELSE IF bs[i] < 128 THEN i ELSE FirstTerm(bs, i + 1)
 \* sum of the 7-bit groups 1..t:  sum (b_i mod 128) * 128^(i-1)
-RECURSIVE Groups(_, _, _)
-Groups(bs, t, i) == IF i > t THEN <<>> ELSE Add(FromNat(bs[i] % 128), MulS(Groups(bs, t, i + 1), 128))
-VarintValue(bs, t) == Groups(bs, t, 1)
+RECURSIVE GroupsOf(_)
+GroupsOf(s) == IF s = <<>> THEN <<>> ELSE Add(FromNat(Head(s) % 128), MulS(GroupsOf(Tail(s)), 128))
+VarintValue(bytes, upto) == GroupsOf(SubSeq(bytes, 1, upto))
 \* the documented outcome classes
 VarintOk(bs) == LET t == FirstTerm(bs, 1) IN t # 0 /\ t <= 19 /\ (t = 19 => bs[19] % 128 <= 3)
                /\ (Len(bs) >= 19 /\ t = 0 => FALSE)
